@@ -8,7 +8,7 @@ DRIVER = "c03"
 PROPS_MODULE = "OxyModel.Props.C13"
 AUDIT = "OxyModel/Audit/C13.lean"
 THEOREMS = ["C13.C13_reject_no_debit", "C13.C13_admit_debits_all", "C13.C13_reject_no_debit_limiter",
-            "C13.C13_flood_free", "C13.C13_flood_free_same_instant", "C13.C13_flood_outcome_counterexample",
+            "C13.C13_flood_free", "C13.C13_flood_free_same_instant", "C13.C13_flood_outcome_counterexample", "C13.C13_refusal_loss_bound",
             "C13.C13_delay_sufficient", "C13.C13_delay_bounds", "C13.C13_reachable", "C13.C13_delay_sufficient_limiter",
             "C13.C13_idle_full_burst", "C13.C13_idle_admits", "C13.C13_idle_full_burst_limiter",
             "C13.C13_over_burst_is_error", "C13.C13_over_burst_is_error_limiter"]
@@ -26,7 +26,12 @@ ASSUMPTIONS = [
     "'no competing traffic from its source' = no request of that source between the refusal and the retry (other sources are unrestricted)",
     "flood-freeness is claimed as: no bucket is debited, a refused request equals an amount-0 request, tokens never decrease, and at one "
     "instant nothing changes; NOT claimed (false of the code, C13_flood_outcome_counterexample): that a refused request never changes a "
-    "later outcome — every request, refused or not, drops the sub-token remainder of elapsed refill time (lastRefresh = now)",
+    "later outcome — every request, refused or not, drops the sub-token remainder of elapsed refill time (lastRefresh = now). The cost is "
+    "bounded (C13_refusal_loss_bound): per bucket and per refusal less than one token interval tpt of accrued time, nothing when "
+    "refusals are less than tpt apart or no whole token has accrued; so k refusals cost a bucket fewer than k tokens and at worst "
+    "(refusals just under 2*tpt apart) halve its refill rate",
+    "'burst x (period/average)' in the idle clause is burst x tpt with tpt = max(1 ns, floor(period/average)) (see C03: relative gap to the exact "
+    "quotient <= 1/floor(period/average); with average > period[ns] the clamp makes it longer than the literal product)",
     "limiter-level theorems hold in every state reachable with the default rates (C13_reachable); per-request rate overrides are not covered",
 ]
 
@@ -307,6 +312,8 @@ MANIFEST = {
              "the compiled model, including retry ops driven by the implementation's X-Retry-In."),
     "note": ("Trusted: Lean kernel; propext/Classical.choice/Quot.sound; hand-written model validated on generated scenarios only; "
              "non-negative amounts, no overflow, monotone clock. Not claimed (and false of the code): that a refused request never changes a "
-             "later outcome — each request drops the sub-token remainder of elapsed refill time (C13_flood_outcome_counterexample)."),
+             "later outcome — each request drops the sub-token remainder of elapsed refill time (C13_flood_outcome_counterexample); bounded by "
+             "C13_refusal_loss_bound: < tpt of accrued time per bucket per refusal (fewer than k tokens for k refusals, at worst half the refill rate), "
+             "nothing when refusals are < tpt apart."),
     "technique": "Lean 4 proof (case analysis of consume/rollback, simulation through the TTL map) over executable model + differential correspondence with ratelimit.TokenLimiter",
 }
